@@ -6,8 +6,18 @@ PROP = dict(
                  timeout=dict(quick=300, thorough=1800)),
             dict(module="VHost", cfg=dict(quick="VHostEmit_quick.cfg", thorough="VHostEmit_thorough.cfg"), emit=True,
                  workers=16, timeout=dict(quick=300, thorough=3600)),
+            # extension: how site addresses become listeners (specs/ListenerGroups.tla, notes/ListenerGroups.md):
+            # invariants + one CASE per configuration; the two wrappers are the same module under other names
+            # (three-site configurations; configurations loaded with -host / another -port)
+            dict(module="ListenerGroups", cfg=dict(quick="ListenerGroups_quick.cfg", thorough="ListenerGroups_thorough.cfg"),
+                 emit=True, workers=12, timeout=dict(quick=300, thorough=1500)),
+            dict(module="ListenerGroups3", cfg=dict(thorough="ListenerGroups3_thorough.cfg"), emit=True, workers=8,
+                 coverage=True, timeout=dict(thorough=900)),
+            dict(module="ListenerGroupsHost", cfg=dict(thorough="ListenerGroupsHost_thorough.cfg"), emit=True, workers=8,
+                 timeout=dict(thorough=900)),
         ],
-        go=[dict(pkg="c01", test="TestC01", timeout=dict(quick=600, thorough=3600))],
+        go=[dict(pkg="c01", test="TestC01", timeout=dict(quick=600, thorough=3600)),
+            dict(pkg="cx01listeners", test="TestCx01Listeners", timeout=dict(quick=300, thorough=1500))],
         exhaustive=dict(quick=False, thorough=False),
         technique="TLA+ spec VHost.tla model-checked by TLC; routing tables replayed against real casket instances",
         level_text="TLC checks exhaustively (K sites over 13 host patterns x 5 path prefixes, 14x8 requests) that the stepwise model of vhostTrie.Match equals the declarative most-specific-site rule; the routing table of every site set is then replayed against real casket instances (casket.Start, raw HTTP/1.1 requests, several declaration orders, address forms and Host spellings). Bounded model checking plus conformance replay: right for a pure routing function whose input space is combinatorial.",
